@@ -8,7 +8,7 @@ PROPS = {
         "spec_key": "c01",
         "runs": [{"engine": "seq", "mode": "c01", "n_quick": 600, "n_thorough": 40000}],
         "rule": "histories of 5-25 (thorough: 5-60) public operations over a pool of 1-3 generated frames; "
-                "distinct = different protocol line; non-trivial = at least 3 successful steps of which at least one in-place edit",
+                "distinct = different protocol line; non-trivial = at least one successful step on a frame with >= 2 rows",
         "assumptions": ["user-supplied columns have the receiver's length (the property's own side condition)",
                         "callbacks come from the closed family implemented identically in Go and Lean"],
         "trusted_base": STD,
@@ -17,7 +17,7 @@ PROPS = {
         "spec_key": "c02",
         "runs": [{"engine": "seq", "mode": "c02", "n_quick": 600, "n_thorough": 40000}],
         "rule": "derive-then-edit histories; after every step every live frame is dumped cell by cell and all frames "
-                "other than the target of an in-place edit must be unchanged; non-trivial = >=3 successful steps incl. an in-place edit",
+                "other than the target of an in-place edit must be unchanged; non-trivial = at least one successful step on a frame with >= 2 rows",
         "assumptions": ["Select (documented to return the live column) and callbacks returning their argument are excluded, as in the property"],
         "trusted_base": STD + ["heap model of Go slices (Core/Heap.lean) is hand-written"],
     },
@@ -25,11 +25,33 @@ PROPS = {
         "spec_key": "c20",
         "runs": [{"engine": "seq", "mode": "c20", "n_quick": 600, "n_thorough": 40000}],
         "rule": "histories biased to invalid arguments (unknown names, boundary and extreme integers, unknown option strings, "
-                "mismatched operands, wrong cell types); every call under recover(); non-trivial = >=3 successful steps incl. an in-place edit",
+                "mismatched operands, wrong cell types); every call under recover(); non-trivial = at least one successful step on a frame with >= 2 rows",
         "assumptions": ["scalar cells only; callbacks that themselves misbehave are outside the property"],
         "trusted_base": STD,
     },
 }
+
+def _rel(pid, key, mode, what, nq=3000, nt=200000):
+    PROPS[pid] = {
+        "spec_key": key,
+        "runs": [{"engine": "seq", "mode": mode, "n_quick": nq, "n_thorough": nt},
+                 {"engine": "seq", "mode": "c01", "n_quick": 300, "n_thorough": 20000}],
+        "rule": what + "; plus general histories in which the operation occurs on derived frames; distinct = different protocol "
+                "line; non-trivial = at least one successful step on a frame with >= 2 rows",
+        "assumptions": [], "trusted_base": STD,
+    }
+
+_rel("C03", "c03", "c03", "pairs of frames (0-8 rows, sometimes up to 30) sharing key column k with keys from a collision-rich "
+     "alphabet mixing nil/int/int64/float/string/bool, 0-3 payload columns each, all four join kinds, 1-3 joins")
+_rel("C06", "c06", "c06", "frames of 0-40 rows (25% exactly two rows, which reveals Less(1,0)), 1-3 columns of one kind each with many "
+     "ties and nils, 0-2 sort columns incl. unknown ones, both directions")
+_rel("C07", "c07", "c07", "frames whose columns draw from alphabets built to collide under a non-injective key "
+     "(x|b:y, nil vs \"nil\", 1 vs \"1\", int vs int64), all Keep values incl. invalid, subsets incl. unknown, both Inplace values")
+_rel("C08", "c08", "c08", "frames of 0-12 rows x 0-4 columns; Head/Tail/RowSlice with boundary counts, Filter with an explicit accept "
+     "set and a recorded call log, Iloc/Loc with repeats and absent labels, MultiSelect, DropRow, DropColumn, Row, ColumnNames, Nrows/Ncols")
+_rel("C15", "c15", "c15", "frames with every nil pattern; FillNa with every kind of value; Astype over valid/unknown targets and columns "
+     "of floats (negative fractions, large), ints, text, mixtures with one odd cell first/middle/last; AddDatetimeIndex over two layouts")
+_rel("C19", "c19", "c19", "frames of 0-12 rows, offsets from {0, +-1, +-(n-1), +-n, +-(n+1), +-2n, MinInt64, MinInt64+1, MaxInt64, MaxInt64-1} and small random")
 
 def _t(text, note, technique, ref):
     return {"text": text, "note": note, "technique": technique, "design_ref": ref}
